@@ -860,6 +860,14 @@ package pokertable
 //@   ensures starts-dealer-sb-bb: 3 <= playerCount && playerCount <= 10 ==> r[0] == "dealer" && r[1] == "sb" && r[2] == "bb"
 //@   ensures labels-distinct: forall(i, 0, 10, forall(j, 0, 10, i < j && j < len(r) ==> r[i] != r[j]))
 //@   ensures ends-with-cutoff: 5 <= playerCount && playerCount <= 10 ==> r[playerCount - 1] == "co"
+// the standard order of the middle positions per table size: under the gun first, then middle positions, hijack, cutoff
+//@   ensures standard-middle-positions-4: playerCount == 4 ==> r[3] == "ug"
+//@   ensures standard-middle-positions-5: playerCount == 5 ==> r[3] == "ug" && r[4] == "co"
+//@   ensures standard-middle-positions-6: playerCount == 6 ==> r[3] == "ug" && r[4] == "hj" && r[5] == "co"
+//@   ensures standard-middle-positions-7: playerCount == 7 ==> r[3] == "ug" && r[4] == "mp" && r[5] == "hj" && r[6] == "co"
+//@   ensures standard-middle-positions-8: playerCount == 8 ==> r[3] == "ug" && r[4] == "ug2" && r[5] == "mp" && r[6] == "hj" && r[7] == "co"
+//@   ensures standard-middle-positions-9: playerCount == 9 ==> r[3] == "ug" && r[4] == "ug2" && r[5] == "mp" && r[6] == "mp2" && r[7] == "hj" && r[8] == "co"
+//@   ensures standard-middle-positions-10: playerCount == 10 ==> r[3] == "ug" && r[4] == "ug2" && r[5] == "ug3" && r[6] == "mp" && r[7] == "mp2" && r[8] == "hj" && r[9] == "co"
 
 //@ spec resIdx(te, r) = Res(te).Players[r].Idx
 //@ spec resPlayer(te, r) = PS(te)[GPI(te)[resIdx(te, r)]]
@@ -1010,6 +1018,11 @@ package pokertable
 //@     && forall(s, 0, 10, s < sm.MaxSeat && between(sm, sm.DealerSeatID, sm.BBSeatID, s) && s != sm.SBSeatID ==> !ActiveAt(sm, s))
 //@     && (sm.DealerSeatID == sm.SBSeatID ==> ActiveAt(sm, sm.DealerSeatID) && activeCount(sm) == 2)
 
+// midLabel(n, k): the label of the k-th position after the big blind at a table with n position slots (k = 1 .. n-3)
+//@ spec midLabel(n, k) = ite(n == 10, ite(k == 1, "ug", ite(k == 2, "ug2", ite(k == 3, "ug3", ite(k == 4, "mp", ite(k == 5, "mp2", ite(k == 6, "hj", ite(k == 7, "co", ""))))))), ite(n == 9, ite(k == 1, "ug", ite(k == 2, "ug2", ite(k == 3, "mp", ite(k == 4, "mp2", ite(k == 5, "hj", ite(k == 6, "co", "")))))), ite(n == 8, ite(k == 1, "ug", ite(k == 2, "ug2", ite(k == 3, "mp", ite(k == 4, "hj", ite(k == 5, "co", ""))))), ite(n == 7, ite(k == 1, "ug", ite(k == 2, "mp", ite(k == 3, "hj", ite(k == 4, "co", "")))), ite(n == 6, ite(k == 1, "ug", ite(k == 2, "hj", ite(k == 3, "co", ""))), ite(n == 5, ite(k == 1, "ug", ite(k == 2, "co", "")), ite(n == 4, ite(k == 1, "ug", ""), "")))))))
+// afterBB(sm, s): number of dealt-in seats from the seat after the big blind up to and including s, clockwise
+//@ spec afterBB(sm, s) = cnt(t, 0, sm.MaxSeat, ActiveAt(sm, t) && t != sm.BBSeatID && cwdist(sm, sm.BBSeatID, t) <= cwdist(sm, sm.BBSeatID, s))
+
 //@ func (*tableEngine).updatePlayerPositions
 //@   partial discharged for seat counts 2..5; larger tables exceed the solver budget (callers assume the contract there)
 //@   property C06
@@ -1032,6 +1045,8 @@ package pokertable
 //@   ensures heads-up-dealer-is-small-blind: Geom(te.sm) && te.sm.DealerSeatID == te.sm.SBSeatID ==> forall(i, 0, 10, i < len(players) && sitsAt(players, te.sm, i, te.sm.DealerSeatID) ==> len(players[i].Positions) == 2 && players[i].Positions[0] == "dealer" && players[i].Positions[1] == "sb")
 //@   ensures every-dealt-in-player-has-a-label: Geom(te.sm) ==> forall(i, 0, 10, i < len(players) && dealtIn(players, te.sm, i) ==> len(players[i].Positions) >= 1)
 //@   ensures nobody-else-gets-one: forall(i, 0, 10, i < len(players) && !dealtIn(players, te.sm, i) ==> sameslice(players[i].Positions, old(players[i].Positions)))
+//@   ensures middle-seats-follow-the-standard-order: Geom(te.sm) && te.sm.DealerSeatID != te.sm.SBSeatID ==> forall(s, 0, 10, s < te.sm.MaxSeat && ActiveAt(te.sm, s) && s != te.sm.DealerSeatID && s != te.sm.SBSeatID && s != te.sm.BBSeatID
+//@             ==> forall(i, 0, 10, i < len(players) && sitsAt(players, te.sm, i, s) ==> len(players[i].Positions) == 1 && players[i].Positions[0] == midLabel(slotCount(te.sm), afterBB(te.sm, s))))
 //@   ensures no-two-players-share-a-label: Geom(te.sm) ==> forall(i, 0, 10, forall(j, 0, 10, i < j && j < len(players) && dealtIn(players, te.sm, i) && dealtIn(players, te.sm, j) ==> players[i].Positions[0] != players[j].Positions[0]))
 
 //@ func (TableBlindState).IsSet
@@ -1183,6 +1198,22 @@ package pokertable
 //@             && forall(k, 0, 10, k < len(gs.Players) ==> sameslice(gs.Players[k].AllowedActions, old(gs.Players[k].AllowedActions)))
 //@   ensures success-applied-once: callres(old(ncalls()), 1) == 0 ==> callfn(old(ncalls()) + 1) == "game.enqueue" && callarg(old(ncalls()) + 1, 0) == callres(old(ncalls()), 0)
 //@   ensures nobody-is-asked-twice: callres(old(ncalls()), 1) == 0 ==> forall(k, 0, 10, k < len(gs.Players) ==> !hasAct(gs, k, "pay"))
+
+//@ func (*game).onGameClosed
+//@   trusted marks the game closed and closes the incoming-state channel once (channel operation: outside the subset)
+//@   modifies g.isClosed
+
+// event dispatch: an unknown event is reported and nothing else happens; otherwise the new state is published last.
+// (The handler itself is called through a function value taken from a local map: that call is recorded in the call log and
+// not followed here; what each handler does is proved on the handlers, above.)
+//@ spec knownEvent(gs) = indom(pokerface.GameEventBySymbol, gs.Status.CurrentEvent)
+//@ func (*game).handleGameState
+//@   property C11
+//@   requires g != nil && g.rg != nil && g.gs != nil && GsPlayersOK(gs)
+//@   modifies g.gs, g.isClosed, forall(k, 0, 10, k < len(gs.Players) ==> gs.Players[k].AllowedActions), log
+//@   ensures unknown-event-is-reported-and-nothing-else: !knownEvent(gs) ==> ncalls() == old(ncalls()) + 1 && callfn(old(ncalls())) == "callback:onGameErrorUpdated" && unchanged(g.gs)
+//@             && forall(k, 0, 10, k < len(gs.Players) ==> sameslice(gs.Players[k].AllowedActions, old(gs.Players[k].AllowedActions)))
+//@   ensures state-published-last: knownEvent(gs) ==> ncalls() >= old(ncalls()) + 1 && callfn(ncalls() - 1) == "callback:onGameStateUpdated" && callarg(ncalls() - 1, 0) == ref(gs)
 
 //@ func (*game).onRoundClosed
 //@   property C11 C13
